@@ -113,7 +113,8 @@ var props = map[string]propSpec{
 	}, Assumptions: with("crypto/tls's own parsing of raw bytes is trusted not to panic", "TLS handshake contract model (DESIGN 3.5); a peer's fatal alert reaches the server as an error shaped like *net.OpError (Temporary() == false)", "ALPN names are 1..255 bytes (TLS cannot carry others)"),
 		Explanation: "the TLS callback on 2-3 arbitrary ALPN strings (stubbed and real callees) and Accept against arbitrary-ALPN, non-TLS and aborting peers, followed by an honest node, a base-listener failure and closure"},
 	"C15": {Harnesses: []harnessSpec{
-		{Pkg: "protocol", Fn: "VerifC15WriteSet", Validate: 8},
+		{Pkg: "protocol", Fn: "VerifC15WriteSetStubbed", Loop: 24, Validate: 8, MustReach: []string{"end"}},
+		{Pkg: "protocol", Fn: "VerifC15WriteSet", Loop: 24, Validate: 8, MustReach: []string{"end"}, ShardBits: 4},
 	}, Assumptions: with("reduced claim: write-set isolation only; interleavings and data races are not decided"), Explanation: "write-set isolation of one handshake over symbolic len/cap of the option slice"},
 	"C16": {Harnesses: []harnessSpec{
 		{Pkg: "protocol", Fn: "VerifC16Protos", Validate: 8},
